@@ -1453,7 +1453,11 @@ pub fn run_family(cfg: FamilyConfig, prof: GenProfile, oracle: &mut Oracle) -> !
         sum.model_requests = drv.as_ref().map(|d| d.requests).unwrap_or(0);
         sum.finish(&args);
     }
-    let budget = if args.thorough { 180 } else { 40 };
+    let mut prof = prof;
+    if let Some(n) = args.extra.get("nshort").and_then(|s| s.parse().ok()) { prof.n_short = n; }
+    if let Some(n) = args.extra.get("nlong").and_then(|s| s.parse().ok()) { prof.n_long = n; }
+    let max_fail: usize = args.extra.get("maxfail").and_then(|s| s.parse().ok()).unwrap_or(3);
+    let budget = args.extra.get("shrink").and_then(|s| s.parse().ok()).unwrap_or(if args.thorough { 180 } else { 40 });
     for (label, ops) in prof.corpus.clone() {
         let out = run_history(Source::Fixed(&ops), drv.as_mut(), oracle, false);
         sum.branch("corpus");
@@ -1461,14 +1465,14 @@ pub fn run_family(cfg: FamilyConfig, prof: GenProfile, oracle: &mut Oracle) -> !
     }
     let mut rng = Rng::new(args.seed);
     for k in 0..prof.n_short {
-        if sum.oracle_violations.len() + sum.disagreements.len() >= 3 { break; }
+        if sum.oracle_violations.len() + sum.disagreements.len() >= max_fail { break; }
         let len = rng.usize(prof.short_len.0, prof.short_len.1);
         let mut r = rng.fork();
         let out = run_history(Source::Gen { rng: &mut r, prof: &prof, len, long: false }, drv.as_mut(), oracle, false);
         record(&mut sum, &args, &mut drv, oracle, &format!("short-{k}"), out, budget);
     }
     for k in 0..prof.n_long {
-        if sum.oracle_violations.len() + sum.disagreements.len() >= 3 { break; }
+        if sum.oracle_violations.len() + sum.disagreements.len() >= max_fail { break; }
         let len = rng.usize(prof.long_len.0, prof.long_len.1);
         let mut r = rng.fork();
         let mut p = prof.clone();
